@@ -161,11 +161,9 @@ def gen_case(rng, tier):
             seen.setdefault(k, f)
     for f in defs:
         if rng.random() < 0.12:
-            f["port"] = 7000 + f["id"]
+            f["port"] = 7000 + rng.choice([f["id"], f["id"], 0, 1])          # collisions between unrelated definitions on purpose
     if flavor == "twins":
-        o = rng.choice(defs)
-        c = dict(o, id=len(defs), body=list(o["body"]), port=7100 + len(defs))
-        defs.append(c)
+        defs.append(B.make_twin(rng, defs, rng.choice(defs), True))
     if flavor == "badname":
         o = rng.choice(defs)
         bad = rng.choice(["%s.1.dsdl", "%s.x.0.dsdl", "1.2.%s.1.0.dsdl", "%s.1.0.0.0.dsdl", "x.%s.1.0.dsdl", "%s.-1.0.dsdl", "%s.dsdl"]) % o["short"]
